@@ -32,6 +32,7 @@ func Draw(t *rapid.T) *pbt.Case {
 	}
 	c.SetStr("alphabet", alpha)
 	c.Spec = gen.Default(sg).With("netopsrc").Draw(t, rapid.IntRange(1, maxB).Draw(t, "budget"))
+	c.SetInt("sentinel-prefixed", gen.SentinelPrefix(t, c.Spec))
 	c.SetInt("hops", rapid.IntRange(0, 2).Draw(t, "hops"))
 	if rapid.IntRange(0, 3).Draw(t, "legacy") == 0 {
 		c.SetInt("legacy", 1)
@@ -132,6 +133,7 @@ func Check(c *pbt.Case, r *pbt.R) {
 	}
 	r.Count("alphabet", c.S["alphabet"])
 	r.St.CountN("hops", c.Int("hops"))
+	r.St.CountN("leaves claiming a sentinel whose text they start with", c.Int("sentinel-prefixed"))
 	r.St.CountN("unsafe-only tokens", len(unsafe))
 	r.Count("unknowing", []string{"none", "all", "some"}[c.Int("unknowing")])
 	for k := range c.Spec.Kinds() {
